@@ -948,3 +948,161 @@ Proof.
   destruct (pair_ok_inv g s arg Hp) as (f0 & Fg0 & _ & Og & _).
   rewrite (getter_LI_field c g arg p' f Fg Og), (I2 f (Hn f Fs)), <- (getter_LI_field c g arg p2 f Fg Og). exact E4.
 Qed.
+
+(* ================================================================== 5. getter readings of rendered raw values *)
+Lemma all_ws_no_char c a : is_ws c = false -> all_ws a = true -> no_char c a = true.
+Proof.
+  intros Hc H. unfold all_ws, no_char in *. rewrite forallb_forall in *. intros x Hx. specialize (H x Hx).
+  apply negb_true_iff. apply N.eqb_neq. intro E. subst. congruence.
+Qed.
+
+(* comma-separated: blanks (spaces, tabs, the line breaks of a folded field) around every item *)
+Definition comma_item_ok (x : str * str * str) : bool :=
+  let '(a, it, b) := x in all_ws a && all_ws b && no_char 44%N it && trimmed_str it.
+Theorem reading_comma c l : nonempty l = true -> forallb comma_item_ok l = true ->
+  decode c (CSplit SpComma true ANone) (Some (render_comma l)) = Ok (VSome (VList (map (fun x => snd (fst x)) l))).
+Proof.
+  intros Hne H. cbn [decode]. do 2 f_equal. f_equal. unfold pieces, render_comma.
+  rewrite split_on_join.
+  - rewrite map_map. apply map_ext_in. intros [[a it] b] Hx. rewrite forallb_forall in H. specialize (H _ Hx).
+    cbn [comma_item_ok] in H. repeat (apply andb_true_iff in H; destruct H as [H ?]). cbn [fst snd]. apply trim_pad; assumption.
+  - destruct l; [discriminate|discriminate].
+  - rewrite forallb_map'. rewrite forallb_forall in *. intros [[a it] b] Hx. specialize (H _ Hx).
+    cbn [comma_item_ok] in H. repeat (apply andb_true_iff in H; destruct H as [H ?]).
+    unfold no_char in *. rewrite !forallb_app. fold (no_char 44%N a). fold (no_char 44%N b).
+    rewrite (all_ws_no_char 44%N a eq_refl H), (all_ws_no_char 44%N b eq_refl H2). rewrite H1. reflexivity.
+Qed.
+
+(* whitespace-separated (spaces, tabs, line breaks), leading and trailing blanks allowed *)
+Theorem reading_ws c tr ab lead l : all_ws lead = true -> seps_ok l = true ->
+  decode c (CSplit SpWs tr ab) (Some (render_ws lead l)) =
+  Ok (match ab with ANone => VSome (VList (map fst l)) | _ => VList (map fst l) end).
+Proof.
+  intros Hl H. cbn [decode]. unfold pieces. rewrite (split_whitespace_render lead l Hl H).
+  assert (W : forallb word (map fst l) = true).
+  { clear Hl. induction l as [|[w sp] r IH]; [reflexivity|]. destruct r as [|[w2 sp2] r'].
+    - cbn [seps_ok] in H. apply andb_true_iff in H. cbn. rewrite (proj1 H). reflexivity.
+    - cbn [seps_ok] in H. apply andb_true_iff in H. destruct H as [H Hr]. apply andb_true_iff in H. destruct H as [H _].
+      apply andb_true_iff in H. destruct H as [Hw _]. cbn [map fst forallb]. rewrite Hw. apply IH. exact Hr. }
+  destruct tr; [rewrite (map_trim_words _ W)|]; destruct ab; reflexivity.
+Qed.
+
+(* one item per line *)
+Theorem reading_lines c ab l : nonempty l = true -> forallb (no_char LFc) l = true ->
+  decode c (CSplit SpLf false ab) (Some (join [LFc] l)) = Ok (match ab with ANone => VSome (VList l) | _ => VList l end).
+Proof.
+  intros Hne H. cbn [decode]. unfold pieces. rewrite split_on_join; [destruct ab; reflexivity|destruct l; [discriminate|discriminate]|exact H].
+Qed.
+
+(* flags *)
+Theorem reading_flag_yes c raw : decode c CFlagYes raw = Ok (VBool (match raw with Some s => str_eqb s l_yes | None => false end)).
+Proof. reflexivity. Qed.
+Theorem reading_yes_no_lower c s : (to_lower s = l_yes \/ to_lower s = l_no) ->
+  decode c CYesNoLower (Some s) = Ok (VSome (VBool (str_eqb (to_lower s) l_yes))).
+Proof. intros [E|E]; cbn [decode]; rewrite E; reflexivity. Qed.
+
+(* checksum records: hash, size, file name separated by blanks; anything after the file name is ignored *)
+Definition blank (s : str) : bool := forallb is_indent s.
+Lemma blank_all_ws s : blank s = true -> all_ws s = true.
+Proof.
+  unfold blank, all_ws. intros H. rewrite forallb_forall in *. intros c Hc. specialize (H c Hc).
+  unfold is_indent in H. apply orb_true_iff in H. destruct H as [H|H]; apply N.eqb_eq in H; subst; reflexivity.
+Qed.
+Lemma blank_no_eol s : blank s = true -> no_eol s = true.
+Proof.
+  unfold blank, no_eol. intros H. rewrite forallb_forall in *. intros c Hc. specialize (H c Hc).
+  unfold is_indent in H. apply orb_true_iff in H. destruct H as [H|H]; apply N.eqb_eq in H; subst; reflexivity.
+Qed.
+Definition triple_ok (x : str * str * str * str * str * str * str) : bool :=
+  let '(w0, h, w1, ds, w2, f, tl) := x in
+  blank w0 && word h && blank w1 && nonempty w1 && nonempty ds && forallb is_dig ds && (dec_value 0 ds <=? usize_max)%N &&
+  blank w2 && nonempty w2 && word f && no_eol tl && match tl with [] => true | t :: _ => is_indent t end.
+Definition triple_val (x : str * str * str * str * str * str * str) : list atom :=
+  let '(w0, h, w1, ds, w2, f, tl) := x in [AS h; AN (dec_value 0 ds); AS f].
+
+Lemma nonempty_neq {A} (l : list A) : nonempty l = true -> l <> [].
+Proof. destruct l; [discriminate|discriminate]. Qed.
+
+Lemma triple_ok_inv w0 h w1 ds w2 f tl : triple_ok (w0, h, w1, ds, w2, f, tl) = true ->
+  blank w0 = true /\ word h = true /\ blank w1 = true /\ w1 <> [] /\ ds <> [] /\ forallb is_dig ds = true /\
+  (dec_value 0 ds <=? usize_max)%N = true /\ blank w2 = true /\ w2 <> [] /\ word f = true /\ no_eol tl = true /\
+  match tl with [] => true | t :: _ => is_indent t end = true.
+Proof.
+  cbn [triple_ok]. intros H.
+  apply andb_true_iff in H. destruct H as [H H12]. apply andb_true_iff in H. destruct H as [H H11].
+  apply andb_true_iff in H. destruct H as [H H10]. apply andb_true_iff in H. destruct H as [H H9].
+  apply andb_true_iff in H. destruct H as [H H8]. apply andb_true_iff in H. destruct H as [H H7].
+  apply andb_true_iff in H. destruct H as [H H6]. apply andb_true_iff in H. destruct H as [H H5].
+  apply andb_true_iff in H. destruct H as [H H4]. apply andb_true_iff in H. destruct H as [H H3].
+  apply andb_true_iff in H. destruct H as [H1 H2].
+  repeat split; try assumption; apply nonempty_neq; assumption.
+Qed.
+
+Lemma parse_triple_line c x : triple_ok x = true ->
+  parse_rec c RTriple (render_triple x) = Some (triple_val x) /\ no_eol (render_triple x) = true /\ render_triple x <> [].
+Proof.
+  destruct x as [[[[[[w0 h] w1] ds] w2] f] tl]. intros H.
+  destruct (triple_ok_inv _ _ _ _ _ _ _ H) as (B0 & Wh & B1 & N1 & Nd & Dd & Md & B2 & N2 & Wf & Et & Ht).
+  cbn [triple_val render_triple].
+  assert (Wd : word ds = true) by (apply digits_word; assumption).
+  split; [|split].
+  - unfold parse_rec. rewrite split_whitespace_lead by (apply blank_all_ws; exact B0).
+    rewrite (split_whitespace_word_sep h w1 _ Wh (blank_all_ws _ B1) N1).
+    rewrite (split_whitespace_word_sep ds w2 _ Wd (blank_all_ws _ B2) N2).
+    assert (Ef : exists rest, Copyright.split_whitespace (f ++ tl) = f :: rest).
+    { destruct tl as [|t tl']; [rewrite app_nil_r; exists []; apply split_whitespace_one; exact Wf|].
+      exists (Copyright.split_whitespace tl'). change (f ++ t :: tl') with (f ++ [t] ++ tl').
+      apply split_whitespace_word_sep; [exact Wf| |discriminate].
+      cbn [all_ws forallb]. rewrite andb_true_r. unfold is_indent in Ht. apply orb_true_iff in Ht. destruct Ht as [E|E]; apply N.eqb_eq in E; subst; reflexivity. }
+    destruct Ef as (rest & Ef). rewrite Ef. rewrite (parse_usize_digits ds Nd Dd Md). reflexivity.
+  - rewrite !no_eol_app. rewrite (blank_no_eol w0 B0), (word_no_eol' h Wh), (blank_no_eol w1 B1), (blank_no_eol w2 B2),
+      (word_no_eol' f Wf), (word_no_eol' ds Wd), Et. reflexivity.
+  - intro E. apply app_eq_nil in E. destruct E as [_ E]. apply app_eq_nil in E. destruct E as [E _]. exact (word_nonempty h Wh E).
+Qed.
+
+Theorem reading_triples c dflt xs : forallb triple_ok xs = true ->
+  decode c (CLines RTriple dflt) (Some (join [LFc] (map render_triple xs))) =
+  Ok (if dflt then VRecs (map triple_val xs) else VSome (VRecs (map triple_val xs))).
+Proof.
+  intros H. cbn [decode]. change [LFc] with [Grammar.LF].
+  assert (A : forall x, In x xs -> parse_rec c RTriple (render_triple x) = Some (triple_val x) /\
+                                   no_eol (render_triple x) = true /\ render_triple x <> [])
+    by (rewrite forallb_forall in H; intros x Hx; apply parse_triple_line, H, Hx).
+  unfold join. rewrite lines_join.
+  - assert (E : mapM_opt (parse_rec c RTriple) (map render_triple xs) = Some (map triple_val xs)).
+    { clear H. induction xs as [|x r IH]; [reflexivity|]. cbn [map mapM_opt].
+      rewrite (proj1 (A x (or_introl eq_refl))). rewrite IH by (intros y Hy; apply A; right; exact Hy). reflexivity. }
+    rewrite E. destruct dflt; reflexivity.
+  - rewrite forallb_map'. rewrite forallb_forall. intros x Hx. apply A, Hx.
+  - apply (last_Forall (fun y => y <> [])); [discriminate|]. rewrite Forall_forall. intros y Hy.
+    apply in_map_iff in Hy. destruct Hy as (x & <- & Hx). apply A, Hx.
+Qed.
+
+(* the short description of a DEP-3 header: the first line; the long description: the rest *)
+Theorem reading_first_line c first rest : no_char LFc first = true ->
+  decode c CFirstLine (Some (join [LFc] (first :: rest))) = Ok (VSome (VStr first)) /\
+  decode c CRestLines (Some (join [LFc] (first :: rest))) = Ok (VSome (VStr (join [LFc] rest))).
+Proof.
+  intros H. cbn [decode]. destruct rest as [|r1 rest'].
+  - cbn [join Deb822Parse.join]. rewrite (split_on_single LFc first H), (split_once_on_none LFc first H). split; reflexivity.
+  - unfold join. rewrite join_cons2 by discriminate. cbn [app].
+    rewrite (split_once_on_first LFc first _ H). rewrite split_on_app_nochar by exact H. cbn [split_on].
+    rewrite N.eqb_refl. rewrite app_nil_r. split; reflexivity.
+Qed.
+
+(* ---- from the text of a document to the value a getter sees ---- *)
+Lemma paragraph_children_items P : is_paragraph P = true -> pitems (children P) = items P.
+Proof. intros H. symmetry. apply is_paragraph_items. exact H. Qed.
+
+Theorem reading_text (d : list block) : wf_doc d = true ->
+  from_str (render d) = Ok (tree_of d) /\
+  forall n P, nth_error (paragraphs (tree_of d)) n = Some P ->
+    nth_error (content d) n = Some (items P) /\
+    forall c g arg, getter c TI g arg (children P) = getter c LI g arg (items P).
+Proof.
+  intros Hwf. destruct (C03_accept_all d Hwf) as (E1 & _ & E3). split; [exact E1|].
+  intros n P Hn. split.
+  - rewrite <- E3. unfold doc_items. rewrite nth_error_map, Hn. reflexivity.
+  - intros c g arg. rewrite (getter_refines TI pitems TI_refines). rewrite paragraph_children_items; [reflexivity|].
+    apply nth_error_In in Hn. unfold paragraphs, node_children_of_kind in Hn. apply filter_In in Hn. apply Hn.
+Qed.
